@@ -34,7 +34,7 @@ Clauses(o) ==
         \* outcome not defined by the documents: but even then no raw placeholder may be emitted
         (IF o.ret.ok /\ \E i \in 1..Len(o.ret.out) :
                 LET g == ParseQuery(o.ret.out[i], PREC) IN g.ok /\ ~NoRaw(g.e, an.names)
-         THEN <<C("NoRawPlaceholder")>> ELSE <<>>)
+         THEN <<C("NoRawPlaceholder")>> ELSE <<D("__unspec")>>)
     ELSE IF an.rwst = "fail" THEN (IF o.ret.ok THEN <<C("BadVariableTableAccepted")>> ELSE <<>>)
     ELSE IF an.left # {} THEN
         (IF o.ret.ok THEN
@@ -58,7 +58,7 @@ Verdict(o) ==
         viol == SelectSeq(cs, LAMBDA c : ~c.dev)
     IN  [id |-> o.id,
          v |-> IF viol # <<>> THEN "violation:" \o viol[1].name
-               ELSE IF cs # <<>> THEN "dev:" \o cs[1].name ELSE "ok"]
+               ELSE IF cs # <<>> THEN (IF cs[1].name = "__unspec" THEN "unspec" ELSE "dev:" \o cs[1].name) ELSE "ok"]
 ASSUME ndJsonSerialize(IOEnv.VERIF_OUT, [i \in 1..Len(Obs) |-> Verdict(Obs[i])])
 Init == x = 0
 Next == UNCHANGED x
